@@ -25,7 +25,9 @@ CFG = {
         "symmetry of IEEE division, multiplication and truncation. The driver instantiates the parameter with IEEE doubles (same operations, "
         "same order as the Go code) and asserts the hypothesis on every value it sees (DESIGN 3.5)",
         "draw.NearestNeighbor.Scale, the PNG / base64 / sixel encoders and octreequant are not modelled: for a rescaled image the theorems cover "
-        "its pixel size and, for every image whatever its pixels, which pixels each block cell reads — not the scaler's choice of source pixels",
+        "its pixel size, for every image whatever its pixels which pixels each block cell reads, and under the stated hypothesis ScalerPicks (every result "
+        "pixel is a source pixel; asserted by the driver on rescaled opaque half-block images) that the cells show exactly source colours — not the "
+        "scaler's choice of source pixels",
         "Go's image/color conversions NRGBA.RGBA() / RGBA.RGBA() are transcribed in Spec.Images (nrgbaRGBA, rgbaRGBA) and "
         "validated by the nrgba / rgba / half / full streams; At() outside the bounds = zero colour (image.NRGBA / image.RGBA)",
         "C11's window model (Model/Window.lean, Props.C11.drawops_clip) for the clipping of the Draw methods",
@@ -35,7 +37,7 @@ CFG = {
                   "kitty/sixel/half/full over the arm structure regenerated from image.go, for every float step meeting Sound; round 2: no_panic_term "
                   "(no division by zero for ANY terminal report, F52 repaired), fit_term, CellSize exactly = cells the resized pixels occupy "
                   "(cell_size_exact_*), all Int boxes (box_negative_empty, fit_box), the cell<->pixel mapping of half/full block images for every image "
-                  "(block_cell_pixels, block_pixel_rows), drawing stays inside the window composed with C11 (block_draw_clipped, sixel_draw_clipped, "
+                  "(block_cell_pixels, block_pixel_rows, resized_opaque_half under the scaler hypothesis), drawing stays inside the window composed with C11 (block_draw_clipped, sixel_draw_clipped, "
                   "sixel_placement_inside), upload bookkeeping of kitty images over all histories (upload_conservation, no_reupload_while_unchanged, "
                   "upload_after_resize); placement_diff for all op histories against an independent frame-history spec; opaque_exact (NRGBA and RGBA "
                   "sources, half and full block), translucent_within_one (kernel evaluation of all 255x256 pairs), alpha_kept, transparent_default. "
